@@ -156,12 +156,20 @@ type Ctx struct {
 	nCases  int
 }
 
+// Flags are registered at package initialisation so that the same code works
+// in a plain main program and in a test binary (harnesses that need
+// testing/synctest are built with "go test -c" and run TestVerif).
+var (
+	seed   = flag.Int64("seed", 1, "PRNG seed")
+	tier   = flag.String("tier", "quick", "quick|thorough")
+	out    = flag.String("out", "", "output directory")
+	replay = flag.String("replay", "", "replay file")
+)
+
 func Start(property string) *Ctx {
-	seed := flag.Int64("seed", 1, "PRNG seed")
-	tier := flag.String("tier", "quick", "quick|thorough")
-	out := flag.String("out", "", "output directory")
-	replay := flag.String("replay", "", "replay file")
-	flag.Parse()
+	if !flag.Parsed() {
+		flag.Parse()
+	}
 	if *out == "" {
 		fmt.Fprintln(os.Stderr, "missing -out")
 		os.Exit(2)
